@@ -1,6 +1,6 @@
 (* C06, history level, request direction: the driver of PSegGen / PSegChunkedGen (one request on a fresh connection, any
    chunking, explicit fuel) RESTATED with the REQUEST_BODY_DATA events of the run next to the invariants of PSeg.v:
-   L = the body-hook events of the calls that have returned (oldest first); inside a call  dv_rb c = []  is carried through
+   L = the REQUEST_BODY_DATA and REQUEST_COMPLETE events of the calls that have returned (oldest first); inside a call  dv_rb c = []  is carried through
    the header phase by the frame lemmas of PDeliv.v (the pass lemmas of PSeg*.v are used as they are: the loop body is a
    function, so "the pass goes round again with c'" and "a pass in this state appends no body event" are about the same c').
    What follows the empty line of the header block (dv_Htail) and the calls that start inside a body (dv_Hext_step) are
@@ -19,14 +19,14 @@ Hypothesis Hcb : wr_all_ok cb.
 Context {w : sg_world}.
 Notation sg_cin := (sg_cinw w).
 
-Lemma dv_cin_rok c d rd p hdr st prev rh t : sg_cin c d rd p hdr st prev rh t -> rh <> Some H_REQUEST_BODY_DATA -> dv_rok c.
+Lemma dv_cin_rok c d rd p hdr st prev rh t : sg_cin c d rd p hdr st prev rh t -> (forall h, rh = Some h -> dv_rq_hook h = false) -> dv_rok c.
 Proof. intros H Hn. unfold dv_rok. rewrite (ci_rh _ _ _ _ _ _ _ _ _ H). exact Hn. Qed.
-Lemma dv_cin_inr c d rd p hdr st prev rh t c' : sg_cin c d rd p hdr st prev rh t -> dv_quiet st = true -> rh <> Some H_REQUEST_BODY_DATA ->
+Lemma dv_cin_inr c d rd p hdr st prev rh t c' : sg_cin c d rd p hdr st prev rh t -> dv_quiet st = true -> (forall h, rh = Some h -> dv_rq_hook h = false) ->
   rq_iter cb g false c = inr c' -> dv_rb c' = dv_rb c.
 Proof.
   intros H Hq Hn E. apply (dv_fr_iter_inr cb g Hcb c c'); [rewrite (ci_state _ _ _ _ _ _ _ _ _ H); exact Hq|exact E|eapply dv_cin_rok; eassumption].
 Qed.
-Lemma dv_cin_inl c d rd p hdr st prev rh t c' rc : sg_cin c d rd p hdr st prev rh t -> dv_quiet st = true -> rh <> Some H_REQUEST_BODY_DATA ->
+Lemma dv_cin_inl c d rd p hdr st prev rh t c' rc : sg_cin c d rd p hdr st prev rh t -> dv_quiet st = true -> (forall h, rh = Some h -> dv_rq_hook h = false) ->
   rq_iter cb g false c = inl (c', rc) -> dv_rb c' = dv_rb c.
 Proof.
   intros H Hq Hn E. apply (dv_fr_iter_inl cb g Hcb c c' rc); [rewrite (ci_state _ _ _ _ _ _ _ _ _ H); exact Hq|exact E|eapply dv_cin_rok; eassumption].
@@ -36,7 +36,7 @@ End FrameInv.
 Lemma dv_idl_inr cb g (Hcb : wr_all_ok cb) c d rd p done fl prev c' : sg_idl c d rd p done fl prev -> rq_iter cb g false c = inr c' -> dv_rb c' = dv_rb c.
 Proof.
   intros H E. apply (dv_fr_iter_inr cb g Hcb c c'); [rewrite (il_state _ _ _ _ _ _ _ H); reflexivity|exact E|].
-  unfold dv_rok. rewrite (il_rh _ _ _ _ _ _ _ H). discriminate.
+  unfold dv_rok. rewrite (il_rh _ _ _ _ _ _ _ H). intros h E'. discriminate E'.
 Qed.
 
 (* entering htp_connp_req_data: the prologue does not touch the event list *)
@@ -91,8 +91,8 @@ Hypothesis Hcall : forall c d rd p hdr t rw' F,
   dv_rb c = [] -> (sg_need d rd <= F)%nat ->
   exists cF rc, rq_loop cb g F false c = (cF, rc) /\ dv_post (rev (dv_rb cF)) cF rw'.
 
-Lemma dv_neq3 : Some H_REQUEST_HEADER_DATA <> Some H_REQUEST_BODY_DATA. Proof. discriminate. Qed.
-Lemma dv_neqN : @None nat <> Some H_REQUEST_BODY_DATA. Proof. discriminate. Qed.
+Lemma dv_neq3 : forall h, Some H_REQUEST_HEADER_DATA = Some h -> dv_rq_hook h = false. Proof. intros h E. inversion E. reflexivity. Qed.
+Lemma dv_neqN : forall h, @None nat = Some h -> dv_rq_hook h = false. Proof. intros h E. discriminate E. Qed.
 
 (* ---- a call that starts (or continues) in REQ_LINE ---- *)
 Lemma dv_call_line c d p q rw' F :
@@ -183,7 +183,7 @@ Proof.
   clearbody c1. destruct Idle1 as [Idle1 V1].
   assert (Lx : (0 < length x)%nat) by (destruct x; [contradiction|cbn; lia]).
   destruct (sg_pass_idle cb g Hcb c1 x 0 [] [] 0%N None Idle1 Lx ltac:(right; cbn; lia)) as (c2 & E2 & H2).
-  pose proof (dv_idl_inr cb g Hcb c1 _ _ _ _ _ _ c2 Idle1 E2) as Ev2. unfold dv_rb at 2 in Ev2. rewrite V1 in Ev2. cbn [bd_evs filter] in Ev2.
+  pose proof (dv_idl_inr cb g Hcb c1 _ _ _ _ _ _ c2 Idle1 E2) as Ev2. unfold dv_rb at 2 in Ev2. rewrite V1 in Ev2. cbn [dv_selp filter] in Ev2.
   pose proof (sg_fuel_need x Hne) as Fx.
   destruct (rq_fuel (length x)) as [|F1] eqn:EF; [unfold sg_need in Fx; lia|].
   rewrite (sg_rq_loop_inr cb g _ _ _ E2).
@@ -203,12 +203,12 @@ Proof.
 Qed.
 
 Definition dv_rlog (c : connp) (ops : list cp_op) : list event :=
-  dv_sel H_REQUEST_BODY_DATA (concat (map r_events (snd (cp_run cb g c ops)))).
+  dv_selp dv_rq_hook (concat (map r_events (snd (cp_run cb g c ops)))).
 Lemma dv_rlog_cons c (x : bytes) ops :
   dv_rlog c (OpReqData x :: ops) =
     rev (dv_rb (fst (connp_req_data cb g (Some x) (length x) c))) ++
     dv_rlog (forget_chunks (fst (connp_req_data cb g (Some x) (length x) c)) <| c_events := [] |>) ops.
-Proof. unfold dv_rlog. rewrite dv_log_req_cons, dv_sel_app, dv_sel_rev. reflexivity. Qed.
+Proof. unfold dv_rlog. rewrite dv_log_req_cons, dv_selp_app, dv_selp_rev. reflexivity. Qed.
 
 (* ---- every later chunk ---- *)
 Lemma dv_chunks : forall (chunks : list bytes) L c rw, dv_between L c rw -> c_events c = [] -> rw <> [] ->
@@ -220,19 +220,19 @@ Proof.
   - cbn [concat] in Hc. cbn [map]. rewrite sg_cp_run_cons, dv_rlog_cons.
     destruct (dv_step L c rw x (concat rest) Hb Hev (Forall_inv Hall) (eq_sym Hc)) as (c' & rc & E & [[Hn Hb']|[Hn T]]); unfold bytes in *; rewrite E; cbn [fst].
     + rewrite app_assoc. apply (IH _ _ (concat rest) (dv_between_finish _ _ _ Hb') eq_refl Hn (Forall_inv_tail Hall) eq_refl).
-    + rewrite (sg_concat_nil rest (Forall_inv_tail Hall) Hn). cbn [map cp_run fst]. unfold dv_rlog. cbn [cp_run snd map concat dv_sel filter]. rewrite app_nil_r. exact T.
+    + rewrite (sg_concat_nil rest (Forall_inv_tail Hall) Hn). cbn [map cp_run fst]. unfold dv_rlog. cbn [cp_run snd map concat dv_selp filter]. rewrite app_nil_r. exact T.
 Qed.
 
 (* ---- every chunking of the request, from htp_connp_open on ---- *)
 Lemma dv_all_chunks (chunks : list bytes) : Forall (fun x => x <> []) chunks -> concat chunks = line0 ++ [CR; LF] ++ bwt ->
-  fin (dv_sel H_REQUEST_BODY_DATA (dv_log cb g (OpOpen :: map OpReqData chunks)))
+  fin (dv_selp dv_rq_hook (dv_log cb g (OpOpen :: map OpReqData chunks)))
       (c_txs (fst (cp_run cb g connp_new (OpOpen :: map OpReqData chunks)))).
 Proof.
   intros Hall Hc.
   set (c0 := forget_chunks (connp_open connp_new) <| c_events := [] |>).
   assert (E0 : fst (cp_run cb g connp_new (OpOpen :: map OpReqData chunks)) = fst (cp_run cb g c0 (map OpReqData chunks))).
   { cbn [cp_run cp_step]. unfold finish_call. fold c0. destruct (cp_run cb g c0 (map OpReqData chunks)). reflexivity. }
-  assert (E1 : dv_sel H_REQUEST_BODY_DATA (dv_log cb g (OpOpen :: map OpReqData chunks)) = dv_rlog c0 (map OpReqData chunks)).
+  assert (E1 : dv_selp dv_rq_hook (dv_log cb g (OpOpen :: map OpReqData chunks)) = dv_rlog c0 (map OpReqData chunks)).
   { unfold dv_log, dv_rlog. cbn [cp_run cp_step]. unfold finish_call. fold c0. destruct (cp_run cb g c0 (map OpReqData chunks)). reflexivity. }
   rewrite E0, E1. destruct chunks as [|x rest].
   - cbn [concat] in Hc. symmetry in Hc. apply app_eq_nil in Hc. destruct Hc as [_ Hc]. discriminate.
@@ -240,7 +240,7 @@ Proof.
     destruct (dv_first c0 x (concat rest) eq_refl eq_refl eq_refl eq_refl eq_refl eq_refl eq_refl eq_refl eq_refl eq_refl eq_refl eq_refl eq_refl (Forall_inv Hall) Hc)
       as (c' & rc & E & [[Hn Hb']|[Hn T]]); unfold bytes in *; rewrite E; cbn [fst].
     + apply (dv_chunks rest _ _ (concat rest) (dv_between_finish _ _ _ Hb') eq_refl Hn (Forall_inv_tail Hall) eq_refl).
-    + rewrite (sg_concat_nil rest (Forall_inv_tail Hall) Hn). cbn [map cp_run fst]. unfold dv_rlog. cbn [cp_run snd map concat dv_sel filter]. rewrite app_nil_r. exact T.
+    + rewrite (sg_concat_nil rest (Forall_inv_tail Hall) Hn). cbn [map cp_run fst]. unfold dv_rlog. cbn [cp_run snd map concat dv_selp filter]. rewrite app_nil_r. exact T.
 Qed.
 End GenE.
 
